@@ -64,6 +64,7 @@ def run(ctx):
         for t in f[2].split(";"):
             k = t.split(":")[0] + (":" + t.split(":")[-1] if t.split(":")[0] in ("att", "ret", "deq", "reply", "begin") else "")
             kinds[k] = kinds.get(k, 0) + 1
+    ctx.coverage["group_histories"] = len([l for l in lines if l.startswith("gtrace ")])
     ctx.coverage["traces"] = ntr
     ctx.coverage["trace_modes"] = modes
     ctx.coverage["event_kinds"] = dict(sorted(kinds.items()))
@@ -73,14 +74,18 @@ def run(ctx):
                             "in-situ answers of the trace scenarios. T: group Readers (sync / interval commits, 1-3 topics) against the mock coordinator: random "
                             "CommitMessages calls (0-3 messages, increasing and repeated offsets, up to 3 concurrent), random order of answering held calls, "
                             "0/10/20 % errors on every coordinator call incl. OffsetCommit (retries, aborts), heartbeat failures (rebalances), Close at the end. "
-                            "distinct_nontrivial = distinct op lines")
+                            "G: 2-3 group Readers on one simulated coordinator (join barrier, leader assignment by the real balancer, evictions with "
+                            "zombie members, members leaving, sync/interval commits), the harness playing fetch side and application per member; one "
+                            "gtrace line per partition checked against Model/Group.lean and the group-level monitors. distinct_nontrivial = distinct op lines")
     concrete = [d for d in dis if d.get("kind") == "disagreement" and not d["holds_on_impl"]]
     others = [d for d in dis if d not in concrete]
     recorded = 0
     for d in concrete[:50]:
         m = re.search(r"mon=(\S+)", d["model"])
         what = re.sub(r"@\d+|:[^,]*", "", m.group(1)) if m else d["op"].split(" ")[0]
-        recorded += ctx.violation({"kind": "trace" if d["op"].startswith("ctrace") else "input", "input": d["op"], "actual": d["impl"],
+        if d["op"] == "d8reader":
+            what = "reader-stall-after-late-unsubscribe (%s)" % d["impl"]
+        recorded += ctx.violation({"kind": "trace" if d["op"].startswith(("ctrace", "gtrace")) else "input", "input": d["op"], "actual": d["impl"],
                                    "expected": d["model"], "correspondence": d["correspondence"],
                                    "monitor": "property monitor of Oracle/C03.lean false on the implementation's output"},
                                   True, signature="C03 %s" % what)
